@@ -5,10 +5,10 @@ package main
 import (
 	"context"
 	"encoding/json"
-	"os/exec"
-	"go/types"
 	"fmt"
+	"go/types"
 	"os"
+	"os/exec"
 	"path/filepath"
 	"sort"
 	"strings"
@@ -72,19 +72,19 @@ type Evidence struct {
 }
 
 type checkCtx struct {
-	e         *Engine
-	prop      string
-	tier      string
-	perMs     int
-	dir       string
-	results   []*FnResult
-	extra     []*Obligation // obligations from lemmas, scans, bounded deciders
-	bounded   []map[string]any
-	assume    map[string]bool
-	notes     []string
-	broken    []string
+	e          *Engine
+	prop       string
+	tier       string
+	perMs      int
+	dir        string
+	results    []*FnResult
+	extra      []*Obligation // obligations from lemmas, scans, bounded deciders
+	bounded    []map[string]any
+	assume     map[string]bool
+	notes      []string
+	broken     []string
 	unverified map[string][]string
-	t0        time.Time
+	t0         time.Time
 }
 
 func cmdCheck(args []string) {
@@ -115,6 +115,18 @@ func cmdCheck(args []string) {
 	solvers := []string{"z3new", "cvc5", "z3"}
 	fns := e.selectFuncs(nil, prop, prop == "C01" && tier == "thorough" && os.Getenv("GOVC_SWEEP") != "")
 	cc.results = e.verifyAll(fns, dir, cc.perMs, solvers, tier == "thorough", 16)
+	if jobs, skipped := e.pairJobs(prop, nil); len(jobs) > 0 || len(skipped) > 0 {
+		per := 2000
+		if tier == "thorough" {
+			per = 20000
+		}
+		cc.results = append(cc.results, e.verifyPairs(jobs, dir, per, solvers, tier == "thorough", 16)...)
+		for k, r := range skipped {
+			cc.notes = append(cc.notes, "two-run lemma not claimed for "+k+": "+r)
+		}
+		cc.assume["two-run lemmas: calls that are not inlined are abstracted as deterministic functions of their arguments and of the receiver fields listed in the equiv declaration (same callee, related arguments, equal pre-state fields => equal post-state fields and results of equal nil-ness); this is the lemma itself for callees of the same function type (induction on call depth) and an assumption for the other helpers"] = true
+		cc.assume["two-run lemmas: single-run obligations (bounds, nil, callee preconditions) are not re-checked in the two-run VCs; they are proved by the one-run contracts of the same functions (C01/C14)"] = true
+	}
 	cc.propertySpecific()
 	os.Exit(cc.report())
 }
